@@ -280,6 +280,9 @@ def run(argv):
     os.makedirs(os.path.join(VERIF, "mutation"), exist_ok=True)
     resf = os.path.join(VERIF, "mutation", "results.jsonl")
     done = set()
+    if "--redo-survivors" in argv and os.path.exists(resf):
+        keep = [l for l in open(resf) if json.loads(l)["status"] != "survived"]
+        open(resf, "w").writelines(keep)
     if os.path.exists(resf):
         for l in open(resf):
             r = json.loads(l)
